@@ -930,10 +930,7 @@ func (cs *c04Case) oversizeInputs() []c04Input {
 // ---------------------------------------------------------------------------------------
 // evaluation
 
-type c04Stats struct {
-	mu   sync.Mutex
-	seen map[string]bool
-}
+type c04Stats struct{}
 
 func c04Describe(b unauthenticatedBundle) map[string]any {
 	d := map[string]any{"round": uint64(b.Round), "period": uint64(b.Period), "step": uint64(b.Step),
@@ -1074,8 +1071,11 @@ func TestVerifC04Mutations(t *testing.T) {
 	c.Assume("the consensus version used has small committee sizes; everything else equals the current version")
 	avv := MakeAsyncVoteVerifier(nil)
 	defer avv.Quit()
-	ncases := c.N(60, 2400)
-	st := &c04Stats{seen: map[string]bool{}}
+	ncases := c.N(60, 1500)
+	if c.Lane == "asan" { // same cases, fewer of them: the sanitizer build is several times slower
+		ncases = c.N(20, 300)
+	}
+	st := &c04Stats{}
 	scratch := c.Scratch("cases")
 	defer os.RemoveAll(scratch)
 	workers := 6
@@ -1122,7 +1122,7 @@ func TestVerifC04Mutations(t *testing.T) {
 	}
 	close(next)
 	wg.Wait()
-	c.Require("inputs", int64(c.N(3000, 150000)))
+	c.Require("inputs", int64(ncases*100))
 	c.Require("accepted", 100)
 	c.Require("mutants_rejected", 1000)
 	c.Require("certificate_inputs", 50)
